@@ -22,6 +22,8 @@ TxtOK(ln) ==
   /\ ln.cp_chunk = ln.cp_set                         \* as a chunk of an indefinite text string through cbor_load
   /\ ln.cp_copyedit = ln.cp_set                      \* a copy of an item whose bytes were written in place after attaching: the copy holds these bytes
   /\ ln.cp_buildz = ln.cp_set                        \* through the NUL-terminated builder
+  /\ ln.cp_reattach_same = ln.cp_set                 \* the same block attached again after its bytes were rewritten in place
+  /\ ln.cp_copychunked = ln.cp_set                   \* as a chunk of an indefinite text string that is copied
   /\ ln.loaded /\ ln.same
 LineOK(ln) == CASE ln.e = "classes" -> ln.lo = ClassLo /\ ln.hi = ClassHi
                 [] ln.e = "cls" -> ClsOK(ln)
